@@ -273,3 +273,19 @@ Proof.
   split; [exact Hin|]. split; [rewrite Hev; reflexivity|]. exists m. split; [exact Em|].
   apply negb_false_iff. apply N.leb_le. lia.
 Qed.
+
+(* memkv: a stored entry survives an advance of the clock exactly when no timer that has fired by then was armed for its
+   very record (same raw key, same value): a timer never removes a later write to the key *)
+Theorem emem_timer_own_record now s y :
+  In y (ts_store s) ->
+  (In y (ts_store (advance EMem now s)) <-> ~ exists p, In p (ts_timers s) /\ fst p <= now /\ snd p = t_rec y).
+Proof.
+  intros Hy. cbn [advance ts_store]. rewrite filter_In. split.
+  - intros [_ Hk] (p & Hp & Hf & Ep). apply negb_true_iff in Hk.
+    assert (existsb (fun q => rec_eqb (snd q) (t_rec y)) (filter (fun q => fst q <=? now) (ts_timers s)) = true); [|congruence].
+    apply existsb_exists. exists p. split; [apply filter_In; split; [exact Hp|apply N.leb_le; exact Hf]|apply rec_eqb_eq; exact Ep].
+  - intros Hn. split; [exact Hy|]. apply negb_true_iff.
+    destruct (existsb (fun q => rec_eqb (snd q) (t_rec y)) (filter (fun q => fst q <=? now) (ts_timers s))) eqn:E; [|reflexivity].
+    exfalso. apply Hn. apply existsb_exists in E as (p & Hp & Ep). apply filter_In in Hp as [Hp Hf].
+    exists p. split; [exact Hp|]. split; [apply N.leb_le; exact Hf|apply rec_eqb_eq; exact Ep].
+Qed.
